@@ -436,15 +436,17 @@ BUILDERS = {"premade": PremadeBuilder}
 def _inputs_for(keras, tf, feats):
   ins = []
   for f in feats:
-    dt = tf.int32 if f["type"] == "cat" else tf.float32
+    dt = tf.int32 if (f["type"] == "cat" and not f.get("as_float")) else (
+        tf.float32)
     ins.append(keras.Input(shape=(1,), dtype=dt, name="in_" + f["name"]))
   return ins
 
 
-def _calibrator(tfl, keras, f, out_min, out_max, name):
+def _calibrator(tfl, keras, f, out_min, out_max, name, units=1):
   if f["type"] == "cat":
     return tfl.layers.CategoricalCalibration(
         num_buckets=f["num_buckets"],
+        units=units,
         output_min=out_min,
         output_max=out_max,
         monotonicities=([tuple(p) for p in f["monotonicity"]]
@@ -466,6 +468,7 @@ def _calibrator(tfl, keras, f, out_min, out_max, name):
           lo + f["missing_output_frac"] * (hi - lo), 3)
   return tfl.layers.PWLCalibration(
       input_keypoints=list(f["keypoints"]),
+      units=units,
       output_min=out_min,
       output_max=out_max,
       clamp_min=f["clamp_min"],
@@ -485,10 +488,13 @@ class StackBuilder(object):
 
   @staticmethod
   def gen(s, tier):
-    mid = s.weighted([("lattice", 4), ("linear", 2), ("kfl", 2), ("rtl", 2)])
+    mid = s.weighted([("lattice", 4), ("linear", 2), ("kfl", 2), ("rtl", 2),
+                      ("multiunit", 2)])
     size = s.weighted([(2, 5), (3, 3), (4, 1)])
     n_feat = s.integer(1, 4) if mid != "rtl" else s.integer(2, 4)
     same = mid in ("kfl", "rtl")
+    mu_kfl = bool(mid == "multiunit" and s.chance(0.4))
+    same = same or mu_kfl
     feats = []
     for i in range(n_feat):
       fs = s.sub("feature", i)
@@ -511,7 +517,10 @@ class StackBuilder(object):
       omin, omax = init_safe_bounds(omin, omax)
     st = {
         "mid": mid,
-        "combine": s.choice(["concat", "concat", "list"]),
+        "combine": s.choice(["concat", "concat", "list", "parallel",
+                             "parallel_list"]),
+        "units": s.integer(2, 3),
+        "multiunit_kfl": mu_kfl,
         "output_min": omin,
         "output_max": omax,
         "clip_inputs": s.chance(0.5),
@@ -535,6 +544,12 @@ class StackBuilder(object):
     if mid == "kfl" or (mid == "rtl" and
                         st["rtl"]["parameterization"] == "kronecker_factored"):
       st["interpolation"] = "hypercube"
+    if mid in ("rtl", "multiunit") or (mid == "linear" and
+                                       st["combine"] == "parallel_list"):
+      st["combine"] = "concat"
+    if st["combine"].startswith("parallel"):
+      for f in feats:
+        f["as_float"] = True
     if mid == "lattice" and st["kernel_init"] == "random_monotonic_initializer":
       pass
     return {"builder": "stack", "features": feats, "stack": st}
@@ -546,13 +561,26 @@ class StackBuilder(object):
     ins = _inputs_for(keras, tf, feats)
     mid = st["mid"]
     cal = []
+    k_units = st.get("units", 1) if mid == "multiunit" else 1
+    layers = []
     for f, x in zip(feats, ins):
       if mid == "linear":
         rng_min, rng_max = 0.0, 1.0
       else:
         rng_min, rng_max = 0.0, f["lattice_size"] - 1.0
-      cal.append(_calibrator(tfl, keras, f, rng_min, rng_max,
-                             "calib_" + f["name"])(x))
+      layers.append(_calibrator(tfl, keras, f, rng_min, rng_max,
+                                "calib_" + f["name"], units=k_units))
+    if st["combine"].startswith("parallel"):
+      pc = tfl.layers.ParallelCombination(
+          calibration_layers=layers,
+          single_output=(st["combine"] == "parallel"), name="parallel_calib")
+      joined = keras.layers.Concatenate(axis=1)(ins) if len(ins) > 1 else ins[0]
+      out = pc(joined)
+      cal = out if isinstance(out, (list, tuple)) else None
+      if cal is None:
+        cal_single = out
+    else:
+      cal = [layer(x) for layer, x in zip(layers, ins)]
     monos = [1 if (direction_of(f) != 0 or
                    (f["type"] == "cat" and f["monotonicity"])) else 0
              for f in feats]
@@ -571,8 +599,7 @@ class StackBuilder(object):
           num_projection_iterations=st["num_projection_iterations"],
           name="mid_lattice",
           **kw)
-      x = cal if st["combine"] == "list" else (
-          keras.layers.Concatenate(axis=1)(cal) if len(cal) > 1 else cal[0])
+      x = StackBuilder._join(keras, st, cal, locals().get("cal_single"))
       y = layer(x)
     elif mid == "kfl":
       layer = tfl.layers.KroneckerFactoredLattice(
@@ -583,8 +610,7 @@ class StackBuilder(object):
           output_max=st["output_max"],
           clip_inputs=st["clip_inputs"],
           name="mid_kfl")
-      x = cal if st["combine"] == "list" else (
-          keras.layers.Concatenate(axis=1)(cal) if len(cal) > 1 else cal[0])
+      x = StackBuilder._join(keras, st, cal, locals().get("cal_single"))
       y = layer(x)
     elif mid == "linear":
       bounded = st["output_min"] is not None
@@ -595,8 +621,34 @@ class StackBuilder(object):
           use_bias=False if bounded else st["use_bias"],
           kernel_initializer=keras.initializers.Constant(1.0 / len(feats)),
           name="mid_linear")
-      x = keras.layers.Concatenate(axis=1)(cal) if len(cal) > 1 else cal[0]
+      x = StackBuilder._join(keras, dict(st, combine=(
+          "parallel" if st["combine"] == "parallel" else "concat")), cal,
+                             locals().get("cal_single"))
       y = layer(x)
+    elif mid == "multiunit":
+      k = k_units
+      # (n, k) per feature -> (n, k, d): one lattice unit per calibrator unit.
+      cols = [keras.layers.Reshape((k, 1))(c) for c in cal]
+      x = keras.layers.Concatenate(axis=2)(cols) if len(cols) > 1 else cols[0]
+      if st["multiunit_kfl"]:
+        inner = tfl.layers.KroneckerFactoredLattice(
+            lattice_sizes=feats[0]["lattice_size"], units=k,
+            num_terms=st["num_terms"], monotonicities=monos,
+            output_min=st["output_min"], output_max=st["output_max"],
+            clip_inputs=st["clip_inputs"], name="mid_kfl_units")
+      else:
+        inner = tfl.layers.Lattice(
+            lattice_sizes=[f["lattice_size"] for f in feats], units=k,
+            monotonicities=monos, output_min=st["output_min"],
+            output_max=st["output_max"], clip_inputs=st["clip_inputs"],
+            interpolation=st["interpolation"], name="mid_lattice_units")
+      z = inner(x)
+      bounded = (st["output_min"] is not None or st["output_max"] is not None)
+      y = tfl.layers.Linear(
+          num_input_dims=k, monotonicities=[1] * k,
+          normalization_order=1 if bounded else None, use_bias=False,
+          kernel_initializer=keras.initializers.Constant(1.0 / k),
+          name="mid_average")(z)
     else:
       r = st["rtl"]
       groups = {}
@@ -637,8 +689,20 @@ class StackBuilder(object):
     return keras.Model(inputs=ins, outputs=y)
 
   @staticmethod
+  def _join(keras, st, cal, single):
+    if st["combine"] == "parallel":
+      return single
+    if st["combine"] in ("list", "parallel_list"):
+      return list(cal)
+    return keras.layers.Concatenate(axis=1)(cal) if len(cal) > 1 else cal[0]
+
+  @staticmethod
   def features(spec):
-    return oracle_features(spec["features"])
+    feats = oracle_features(spec["features"])
+    for f, src in zip(feats, spec["features"]):
+      if src.get("as_float"):
+        f["as_float"] = True
+    return feats
 
   @staticmethod
   def bounds(spec):
